@@ -167,7 +167,7 @@ def nontrivial(op):
     return False
 
 ASSUME = [
-    "Otsu's variance loop multiplies weights and squared mean differences in double; the model uses exact Int (equal while w_b*w_f*255^2 < 2^53, i.e. images below ~370 000 pixels)",
+    "Otsu's variance loop multiplies weights and squared mean differences in double; the model uses exact Int (theorem C16_otsu_variance_fits_double: every value is an integer in [0, total^2*255^2], below 2^53 for images of at most 372 000 pixels, where double arithmetic on integers is exact)",
     "std::nth_element is modelled by its specification (element size/2 of the sorted window); std::max/std::min by max/min",
     "multi-channel pixels are processed channel by channel (nth_channel_view / static_transform): observed through rgb8 / rgb16 / planar rgb8, not proven",
     "morphology and median are exercised on non-empty images only (their implementations start with nth_channel_view / extend_boundary, which are not defined for empty views); thresholds and Otsu include all empty shapes",
